@@ -120,13 +120,42 @@ func VerifHarness_C12_HierarchySoundness() {
 	verifrt.Reach("end")
 }
 
+// the R4 primitive types, by their FHIR names, and the spellings of their proto messages (which are not type names)
+var verifPrimitiveNames = []string{"instant", "time", "date", "dateTime", "base64Binary", "decimal", "boolean", "url", "code", "string", "integer", "uri",
+	"canonical", "markdown", "id", "oid", "uuid", "unsignedInt", "positiveInt", "xhtml"}
+var verifPrimitiveMessages = []string{"Instant", "Time", "Date", "DateTime", "Base64Binary", "Decimal", "Boolean", "Url", "Code", "String", "Integer", "Uri",
+	"Canonical", "Markdown", "Id", "Oid", "Uuid", "UnsignedInt", "PositiveInt", "Xhtml"}
+
+// verifIsFHIRTypeName is the reference for "name is a FHIR type": a primitive by its (lower camel case) FHIR name, a
+// complex datatype or resource by the name of its message, or one of the abstract bases - written without the
+// resolver's own helper, so that a change to that helper does not move the reference with it.
+func verifIsFHIRTypeName(name string) bool {
+	for _, p := range verifPrimitiveNames {
+		if name == p {
+			return true
+		}
+	}
+	for _, m := range verifPrimitiveMessages {
+		if name == m {
+			return false
+		}
+	}
+	switch name {
+	case "BackboneElement", "Element", "Resource", "DomainResource":
+		return true
+	}
+	return protofields.IsValidElementType(name) || protofields.IsValidResourceType(name)
+}
+
 // Resolution: unqualified names resolve FHIR first, then System, case-sensitively; unknown names and namespaces are rejected.
 func VerifHarness_C12_Resolution() {
 	name := verifName("n")
 	if verifrt.NondetBool("systemName") {
-		name = []string{"String", "Boolean", "Integer", "Decimal", "Date", "DateTime", "Time", "Quantity", "Any", "string", "Patient"}[verifrt.Choose("sysname", 11)]
+		// the System names, and every proto message spelling of a primitive (the mixed-case ones included)
+		pool := append([]string{"Quantity", "Any", "string", "Patient", "xhtml"}, verifPrimitiveMessages...)
+		name = pool[verifrt.Choose("sysname", len(pool))]
 	}
-	known := IsValidFHIRPathElement(name) || protofields.IsValidResourceType(name) || name == "Element" || name == "Resource" || name == "DomainResource"
+	known := verifIsFHIRTypeName(name)
 	ts, err := NewTypeSpecifier(name)
 	switch {
 	case known:
